@@ -309,6 +309,19 @@ Definition remove_all (fs : fsys) (p : list comp) : fsys * list path :=
 
 Definition base_name (cs : list string) : string := match cs with [] => "/" | _ => last cs "" end.
 
+(** names in the tar stream of a directory download: TarDirectory walks
+    filepath.Clean(path) with filepath.Walk, which does not follow links — not
+    even when the walked root itself is a link (then nothing is archived) *)
+Definition tar_listing (fs : fsys) (cs : list comp) : string :=
+  match sys_lstat fs cs, resolved fs cs true with
+  | inl (Some DirO), Some q =>
+    let below := filter (fun p => is_prefix q p && negb (path_eqb p q)) (live_paths fs) in
+    join_with ";" (sort_names (map (fun p => join_path (skipn (List.length q) p)) below))
+  | _, _ => ""
+  end.
+
+Definition dir_payload (fs : fsys) (cs : list comp) : string := ("<directory>:" ++ tar_listing fs cs)%string.
+
 Definition exec (allowed : list string) (fs : fsys) (r : request) : outcome :=
   match r with
   | RUpload path data =>
@@ -348,7 +361,7 @@ Definition exec (allowed : list string) (fs : fsys) (r : request) : outcome :=
       else match look_raw fs path true with
            | inl (Some _) =>
              match sys_stat fs cs with
-             | inl (Some DirO) => {| o_fs := fs; o_code := 0; o_payload := "<directory>"; o_chmod := None;
+             | inl (Some DirO) => {| o_fs := fs; o_code := 0; o_payload := dir_payload fs cs; o_chmod := None;
                                      o_touched := opt_list (resolved_raw fs path true) ++ opt_list (resolved fs cs true) |}
              | inl (Some (FileO i)) => {| o_fs := fs; o_code := 0; o_payload := content fs i; o_chmod := None;
                                           o_touched := opt_list (resolved_raw fs path true) ++ opt_list (resolved fs cs true) |}
@@ -453,10 +466,103 @@ Definition real_path (fs : fsys) (cs : list comp) : path := real_path_rev fs (re
 Definition request_path (r : request) : string :=
   match r with RUpload p _ | RDownload p | RList p | RStat p | RChmod p _ | RDelete p _ => p end.
 
+(** ** The other entry points and histories on one handler *)
+Fixpoint drop_chars (n : nat) (s : string) : string :=
+  match n, s with
+  | O, _ => s
+  | S n', String _ r => drop_chars n' r
+  | S _, EmptyString => EmptyString
+  end.
+
+(** patternBaseDir, as text *)
+Definition pattern_base (pattern : string) : string :=
+  let '(pabs, pcs) := clean_text pattern in
+  match ends_with_2stars pcs with
+  | Some base => text_of pabs base
+  | None =>
+    if existsb is_meta (chars (text_of pabs pcs)) then
+      let fix lit (cs : list string) : list string :=
+        match cs with
+        | [] => []
+        | c :: r => if existsb is_meta (chars c) then [] else c :: lit r
+        end in
+      match lit pcs, pabs with
+      | [], true => "/"
+      | l, _ => text_of pabs l
+      end
+    else text_of pabs pcs
+  end.
+
+Fixpoint uniq (l : list string) (seen : list string) : list string :=
+  match l with
+  | [] => []
+  | x :: r => if existsb (String.eqb x) seen then uniq r seen else x :: uniq r (x :: seen)
+  end.
+
+Inductive xrequest :=
+| XBase (r : request)                                  (* the six operations above *)
+| XUploadDir (path data : string)                      (* directory upload: a tar.gz with the single file u.txt *)
+| XDownloadAt (path : string) (offset : nat)           (* resume: ReadFileForDownloadAtOffset *)
+| XRoots.                                              (* browse action "roots" *)
+
+(** The policy (allowed) is an argument of every step and is never returned:
+    no request changes it. *)
+Definition xexec (allowed : list string) (fs : fsys) (x : xrequest) : outcome :=
+  match x with
+  | XBase r => exec allowed fs r
+  | XUploadDir path data =>
+    match validate_path allowed path with
+    | VRefused => refused fs
+    | VOk _ =>
+      let cs := used_path path in
+      let '(fs1, e) := extract true cs fs [EReg "u.txt" data] in
+      match e with
+      | Some _ => failed fs1 (changed_paths fs fs1)
+      | None => {| o_fs := fs1; o_code := 0; o_payload := ""; o_chmod := None; o_touched := changed_paths fs fs1 |}
+      end
+    end
+  | XDownloadAt path offset =>
+    (* validation as for a download; the agent stats the path as given; then the cleaned path is read from the offset *)
+    match exec allowed fs (RDownload path) with
+    | {| o_code := 1%N |} => refused fs
+    | o =>
+      match validate_path allowed path with
+      | VRefused => refused fs
+      | VOk _ =>
+        let cs := used_path path in
+        match look_raw fs path true with
+        | inl (Some _) =>
+          match sys_stat fs cs with
+          | inl (Some (FileO i)) =>
+            if Nat.ltb (String.length (content fs i)) offset then failed fs (opt_list (resolved fs cs true))
+            else {| o_fs := fs; o_code := 0; o_payload := drop_chars offset (content fs i); o_chmod := None;
+                    o_touched := opt_list (resolved_raw fs path true) ++ opt_list (resolved fs cs true) |}
+          | inl (Some _) => failed fs (opt_list (resolved fs cs true))
+          | _ => failed fs (opt_list (resolved_raw fs path true))
+          end
+        | _ => failed fs []
+        end
+      end
+    end
+  | XRoots =>
+    match allowed with
+    | [] => refused fs
+    | _ =>
+      if existsb (fun p => String.eqb p "*") allowed
+      then {| o_fs := fs; o_code := 0; o_payload := "/"; o_chmod := None; o_touched := [] |}
+      else {| o_fs := fs; o_code := 0; o_chmod := None; o_touched := [];
+              o_payload := join_with ";" (sort_names (uniq (filter (fun b => negb (String.eqb b "")) (map pattern_base allowed)) [])) |}
+    end
+  end.
+
+Definition xrequest_path (x : xrequest) : string :=
+  match x with XBase r => request_path r | XUploadDir p _ | XDownloadAt p _ => p | XRoots => "/x" end.
+
 (** ** Correspondence oracle *)
 Inductive fcase :=
-  FCase (fs0 : fsys) (allowed : list string) (req : request)
-        (code : N) (payload : string) (chmodded : string) (escaped : bool) (final : option (list (string * oobj))).
+  FCase (fs0 : fsys) (allowed : list string)
+        (steps : list (xrequest * (N * string * string * bool)))   (* request, (code, payload, chmodded, escaped) *)
+        (final : option (list (string * oobj))).
 
 (** observed files carry their own path as leader (no hard links here) *)
 Definition observe_plain (fs : fsys) : list (string * oobj) :=
@@ -466,16 +572,29 @@ Definition observe_plain (fs : fsys) : list (string * oobj) :=
 Definition unchanged (a b : fsys) : bool :=
   Nat.eqb (List.length (objs a)) (List.length (objs b)) && Nat.eqb (List.length (store a)) (List.length (store b)).
 
+Definition step_ok (allowed : list string) (fs : fsys) (x : xrequest) (obs : N * string * string * bool) : bool * fsys :=
+  let '(code, payload, chmodded, escaped) := obs in
+  let o := xexec allowed fs x in
+  let esc := N.eqb (o_code o) 0 && match x with XRoots => false | _ =>
+             negb (allowed_lex allowed (real_path fs (snd (clean_text (xrequest_path x))))) end in
+  (N.eqb (o_code o) code && String.eqb (o_payload o) payload &&
+   String.eqb (match o_chmod o with Some q => join_path q | None => "" end) chmodded &&
+   Bool.eqb esc escaped, o_fs o).
+
+Fixpoint steps_ok (allowed : list string) (fs : fsys) (steps : list (xrequest * (N * string * string * bool))) : bool * fsys :=
+  match steps with
+  | [] => (true, fs)
+  | (x, obs) :: rest =>
+    let '(ok, fs1) := step_ok allowed fs x obs in
+    let '(ok', fs2) := steps_ok allowed fs1 rest in
+    (ok && ok', fs2)
+  end.
+
 Definition case_ok (c : fcase) : bool :=
   match c with
-  | FCase fs0 allowed req code payload chmodded escaped final =>
-    let o := exec allowed fs0 req in
-    let esc := N.eqb (o_code o) 0 &&
-               negb (allowed_lex allowed (real_path fs0 (snd (clean_text (request_path req))))) in
-    N.eqb (o_code o) code && String.eqb (o_payload o) payload &&
-    String.eqb (match o_chmod o with Some q => join_path q | None => "" end) chmodded &&
-    Bool.eqb esc escaped &&
-    match final with Some f => obs_eqb (observe_plain (o_fs o)) f | None => unchanged fs0 (o_fs o) end
+  | FCase fs0 allowed steps final =>
+    let '(ok, fs1) := steps_ok allowed fs0 steps in
+    ok && match final with Some f => obs_eqb (observe_plain fs1) f | None => unchanged fs0 fs1 end
   end.
 
 Fixpoint mismatches_from (i : N) (cs : list fcase) : list N :=
